@@ -7,12 +7,13 @@
    (the model stops a chain at the first error, as the harness does).  The model is total (no panic state exists in it);
    absence of panics in the Go code is decided per run by the harness under recover().
    Crash clause, proved on the integrity rules of Model/Wire.v: while the provisional header (data size 0) is in place, no
-   prefix of the destination's content is accepted; C04_trunc covers the prefixes of a sequence whose header is final.
+   prefix of the destination's content is accepted (C11_crash_partial); no proper prefix of an encoded sequence with its final 14-byte header is accepted
+   (C11_crash_final_header, from: the model's output is accepted + truncation lemma of C04).
    The step from "prefix of the operations took effect" to these two shapes is decided per run (every operation index, four
    accepted-byte counts, through the real CheckIntegrity): C11_crash_partial. *)
 From Coq Require Import NArith ZArith List Bool.
 Import ListNotations.
-From Fit Require Import Model.Writer Model.Wire Proofs.WriterFaultProofs Proofs.CrashProofs.
+From Fit Require Import Model.Writer Model.Wire Model.Crc Proofs.WriterFaultProofs Proofs.CrashProofs Proofs.AcceptProofs.
 Open Scope N_scope.
 
 Theorem C11_success_means_no_failure_batch : forall w p ds w', noerr w -> encode_one w p ds = (false, w') -> clean w w' /\ noerr w'.
@@ -39,11 +40,24 @@ Theorem C11_crash_partial : forall l12 zc hs ver pv rest k, (hs = 12 \/ hs = 14)
 Proof. exact provisional_prefix_rejected. Qed.
 Print Assumptions C11_crash_partial.
 
+(* crash while a sequence with its final header is being written (plain writers: the header goes out final; rewritable
+   destinations whose caller preset the data size): no proper prefix of the sequence is accepted.  The hypotheses say the
+   model's output is a byte string of a size a 32-bit data size can describe; C11_final_instance shows they are satisfiable *)
+Theorem C11_crash_final_header : forall c f r k, encode_fit c f = Ok r -> (ef_hsize f =? 12) = false ->
+  bytes_ok (er_bytes r) -> 16 < len (er_bytes r) < 2 ^ 32 -> (k < length (er_bytes r))%nat ->
+  integrity_sequence (firstn k (er_bytes r)) = None.
+Proof. exact encode_fit_prefix_rejected. Qed.
+Print Assumptions C11_crash_final_header.
+
 (* non-vacuity: a fault at operation 1 that takes 3 bytes is reached and reported, and what the destination then holds is
    rejected by the integrity rules *)
 Definition c11_file := mkefile 14 0 0 [mkmsg 0 0 [set_value (create_field 0 0) (VNum TU8 4)] []].
 Example C11_instance : match encode_parts (mkecfg false false 0 proto_V2 false) c11_file with
   | Ok p => let a := Writer.encode_chain (wst_new KWriterAt 0 [] (Some (mkfault 1 3))) [(p, 0)] [] in
             fst a = [true] /\ (1 <? d_ops (w_dest (snd a))) = true /\ integrity_b (final_bytes (snd a)) = (0, false)
+  | _ => False end.
+Proof. vm_compute. auto. Qed.
+Example C11_final_instance : match encode_fit (mkecfg false false 0 proto_V2 false) c11_file with
+  | Ok r => bytes_okb (er_bytes r) = true /\ (16 <? len (er_bytes r)) = true /\ integrity_b (er_bytes r) = (1, true)
   | _ => False end.
 Proof. vm_compute. auto. Qed.
